@@ -71,7 +71,8 @@ pub fn install_quiet_panic_hook() {
                 .map(|l| format!("{}:{}", l.file(), l.line()))
                 .unwrap_or_default();
             LAST_PANIC.with(|l| l.set(Some(loc)));
-            if verbose && info.payload().downcast_ref::<Injected>().is_none() {
+            let in_op = CUR_OP.with(|c| c.get()) != 0;
+            if (verbose || !in_op) && info.payload().downcast_ref::<Injected>().is_none() {
                 prev(info);
             }
         }));
